@@ -46,6 +46,7 @@ def main(argv) -> int:
     det_n = int(os.environ.get("VERIF_DET_N", "48"))
     i = stripe
     first = i
+    curfile = (outfile[:-5] if outfile.endswith(".json") else outfile) + ".cur"
     while True:
         if count and i >= count:
             break
@@ -56,6 +57,8 @@ def main(argv) -> int:
         rng = rng_for(prop, seed, i)
         sc = mod.generate(rng, tier)
         sc.update({"property": prop, "seed": seed, "run": i, "format": 1})
+        with open(curfile, "w") as cf:  # if the process dies inside the library, the driver knows where
+            cf.write(jdump(sc))
         out = run_scenario(mod, sc)
         res["runs"] += 1
         d64 = int(out.digest[:16], 16)
